@@ -55,6 +55,8 @@ type DynOp struct {
 	Name  int    `json:"name,omitempty"`
 	Proj  int    `json:"proj,omitempty"`
 	Label bool   `json:"label,omitempty"`
+	// Inner: the changes inside a watch outage (kind "outage": histories of relist.go only)
+	Inner []ObjOp `json:"inner,omitempty"`
 }
 
 func (o DynOp) obj() Obj { return Obj{o.Ns, o.Name, o.Proj} }
